@@ -37,5 +37,9 @@ Definition mon (c : case) : bool :=
           forallb (fun cd => dot_peqb (erase true d0) (erase true (snd cd)) &&
                              (negb (Bool.eqb (c_qualify c0) (c_qualify (fst cd))) ||
                               dot_peqb (erase false d0) (erase false (snd cd)))) r
-      end
+      end &&
+      (* a drawing is determined by the HUGR and the options of that rendering: any two renderings of the case made
+         under equal options (before / after other renderers were created, customised and used) are the same drawing,
+         colours and names included *)
+      determined_b (all_some rs)
   end.
